@@ -194,13 +194,17 @@ var perturbations = []perturbation{
 		return d, true
 	}},
 	{name: "extra_kind", apply: func(c *EvalCase, _ *Out) (*EvalCase, bool) {
-		// only for contexts that are already multi-kind (a single-kind context turning multi changes its own kind),
-		// and only when no clause tests the kind attribute
-		if c.Ctx.Invalid != 0 || !c.Ctx.Multi || mentionsKindAttr(c) {
+		// a kind nothing mentions; a single-kind context becomes a multi-kind one (its Kind() changes to "multi", which only a
+		// clause on the kind attribute could observe: those cases are left out, as the property says)
+		if c.Ctx.Invalid != 0 || mentionsKindAttr(c) {
 			return nil, false
 		}
 		d := cloneCase(c)
-		d.Ctx.Singles = append(d.Ctx.Singles, SingleSpec{Kind: "zzkind", Key: "a", Attrs: []KV{{"email", JStr("alice@x.com")}}})
+		d.Ctx.Multi = true
+		if len(d.Ctx.Singles) == 1 && d.Ctx.Singles[0].Secondary != nil {
+			return nil, false // the legacy user schema (secondary key) cannot be part of a multi-kind context
+		}
+		d.Ctx.Singles = append(append([]SingleSpec{}, d.Ctx.Singles...), SingleSpec{Kind: "zzkind", Key: "a", Attrs: []KV{{"email", JStr("alice@x.com")}}})
 		return d, true
 	}},
 	{name: "metadata", apply: func(c *EvalCase, _ *Out) (*EvalCase, bool) {
